@@ -90,6 +90,11 @@ class ListChange[T]:
     def __or__(self, other: "ListChange[T]") -> "ListChange[T]":
         if other.replace is not None:
             return other
+        if self.replace is not None:
+            return ListChange(
+                replace=tuple(x for x in self.replace if x not in other.remove)
+                + tuple(x for x in other.add if x not in self.replace)
+            )
         return ListChange(
             add=self.add + tuple(x for x in other.add if x not in self.add),
             remove=self.remove + tuple(x for x in other.remove if x not in self.remove),
